@@ -1,5 +1,6 @@
 import ComposeVerif.Model.Str
 import ComposeVerif.Model.Template
+import ComposeVerif.Model.Dotenv
 /-!
 # Model of the project-name decision and of the project-environment option machine (C17)
 
@@ -13,9 +14,11 @@ Mirrors the code that exists:
 * `cli.WithName`, `cli.WithEnv`, `cli.WithOsEnv`, `cli.WithEnvFiles`, `cli.WithDotEnv` (`applyOpt`) as a state
   machine over `ProjectOptions{Name, Environment, EnvFiles}` (`PO`), `cli.NewProjectOptions` (`runOpts`);
 * `utils.GetAsEqualsMap` (`asEqualsMap`), `types.Mapping.Merge` (non-overriding: `e ++ m` under first-match lookup),
-  `dotenv.GetEnvFromFile` (`getEnvFromFile`) on files made of simple `KEY=VALUE` lines, the value being a
-  template expanded by `template.Substitute` with the lookup chain
-  current project environment → earlier files → earlier lines of the same file;
+  `dotenv.GetEnvFromFile` (`getEnvFromFile`) on the raw text of the files, parsed by the C18 model of the env-file
+  parser (`Dotenv.parse`, BOM stripped) with the lookup chain current project environment → earlier files
+  (→ earlier lines of the same file, inside the parser);
+* `cli.WithConfigFileEnv` (`withConfigFileEnv`, `splitOn`), `cli.WithDefaultConfigPath` (`searchUp`),
+  `cli.WithWorkingDirectory`, `ProjectOptions.GetWorkingDir` (`projDirId`) over a finite directory tree;
 * `cli.withNamePrecedenceLoad` (`cliName`), `loader.projectName` (`loaderName`), the export as
   `COMPOSE_PROJECT_NAME`, the interpolation of every `name:` key and of a probe string by the load pipeline,
   and the `project name must not be empty` test of `loader.load` (`load`).
@@ -65,40 +68,58 @@ def asEqualsMap (l : List Str) : Env :=
 def cpn : Str := "COMPOSE_PROJECT_NAME".toList
 def disableKey : Str := "COMPOSE_DISABLE_ENV_FILE".toList
 
+def composeFileKey : Str := "COMPOSE_FILE".toList
+def pathSepKey : Str := "COMPOSE_PATH_SEPARATOR".toList
+
 /-! ## the world outside the options -/
 
 inductive EnvFile
   | dir
-  | file (lines : List (Str × Str))   -- `KEY=VALUE` lines, VALUE a template
+  | file (content : Str)   -- raw text of the file
+deriving Repr, DecidableEq
+
+/-- one directory of the (finite) tree the options can see -/
+structure DirNode where
+  /-- base name -/
+  name : Str
+  /-- `.env` in this directory -/
+  dotEnv : Option EnvFile := none
+  /-- index of the parent directory (`none`: nothing above it holds compose files) -/
+  parent : Option Nat := none
+  /-- compose files in this directory: file name → YAML documents → the `name:` key (`none` = absent) -/
+  files : List (Str × List (Option Str)) := []
+deriving Repr
+
+/-- a config path after `filepath.Abs`: a file `f` in directory `dir`, or (`file = none`) a directory whose parent is `dir` -/
+structure CfgRef where
+  dir : Nat
+  file : Option Str
 deriving Repr, DecidableEq
 
 inductive FileRef
   | named (n : Str)
-  | default              -- `.env` of the directory of the first compose file
-  | defaultAlt           -- `.env` of the directory given to `WithWorkingDirectory`
+  | default (d : Nat)       -- `.env` of directory `d`
 deriving Repr, DecidableEq
 
 structure World where
-  /-- base name of the directory of the first compose file -/
-  dir : Str
-  /-- base name of the directory handed to `WithWorkingDirectory` (when that option is used) -/
-  altDir : Str := []
-  /-- `.env` of that directory -/
-  altDotEnv : Option EnvFile := none
+  dirs : List DirNode
+  /-- the process working directory -/
+  cwd : Nat := 0
+  /-- config paths handed to `NewProjectOptions` -/
+  given : List CfgRef := []
+  /-- what a path string of `COMPOSE_FILE` denotes (relative to `cwd`); an absent string does not exist -/
+  paths : List (Str × CfgRef) := []
   /-- `os.Environ()` -/
   os : List Str
-  /-- compose files in order → YAML documents → the `name:` key (`none` = absent) -/
-  files : List (List (Option Str))
   /-- env files by path; an absent path does not exist -/
   envFiles : List (Str × EnvFile)
-  /-- `<project directory>/.env` -/
-  dotEnv : Option EnvFile
-  /-- a string of the compose model, interpolated by the load -/
+  /-- a string of the compose model (a label of a service present in every file), interpolated by the load -/
   probe : Str
 deriving Repr
 
 inductive Err
   | invalidName | emptyName | envNotFound | envIsDir | dotenvParse | interp | disableParse | panic
+  | configNotFound | configIsDir | noConfig
 deriving Repr, DecidableEq
 
 inductive Opt
@@ -107,17 +128,21 @@ inductive Opt
   | withOsEnv
   | withEnvFiles (fs : List Str)
   | withDotEnv
-  /-- `WithWorkingDirectory(alt ? <the alternative directory> : "")`; the empty path is a no-op -/
-  | withWorkDir (alt : Bool)
+  /-- `WithWorkingDirectory(path of directory d)`; `none` is the empty path, a no-op -/
+  | withWorkDir (d : Option Nat)
+  | withConfigFileEnv
+  | withDefaultConfigPath
 deriving Repr, DecidableEq
 
-/-- `cli.ProjectOptions` (the three fields the property is about) -/
+/-- `cli.ProjectOptions` (the fields the property is about) -/
 structure PO where
   name : Str := []
   env : Env := []
   envFiles : List FileRef := []
-  /-- `WorkingDir` set (to the alternative directory) -/
-  alt : Bool := false
+  /-- `WorkingDir` -/
+  workDir : Option Nat := none
+  /-- `ConfigPaths` -/
+  configs : List CfgRef := []
 deriving Repr, DecidableEq
 
 def strs (l : List String) : List Str := l.map String.toList
@@ -128,12 +153,23 @@ def parseBool (s : Str) : Option Bool :=
   else if (strs ["0", "f", "F", "FALSE", "false", "False"]).contains s then some false
   else none
 
-/-- `ProjectOptions.GetWorkingDir`: `WorkingDir` when set, else the directory of the first compose file -/
-def projDir (w : World) (o : PO) : Str := if o.alt then w.altDir else w.dir
+def dirNode (w : World) (d : Nat) : DirNode := w.dirs.getD d { name := [] }
+
+/-- `ProjectOptions.GetWorkingDir`: `WorkingDir` when set, else the directory of the first config path, else
+    the process working directory -/
+def projDirId (w : World) (o : PO) : Nat :=
+  match o.workDir with
+  | some d => d
+  | none => match o.configs with
+    | c :: _ => c.dir
+    | [] => w.cwd
+
+/-- base name of the project directory -/
+def projDir (w : World) (o : PO) : Str := (dirNode w (projDirId w o)).name
 
 def defaultEnvFile (w : World) (o : PO) : PO :=
-  match (if o.alt then w.altDotEnv else w.dotEnv) with
-  | some (.file _) => { o with envFiles := [if o.alt then .defaultAlt else .default] }
+  match (dirNode w (projDirId w o)).dotEnv with
+  | some (.file _) => { o with envFiles := [.default (projDirId w o)] }
   | _ => o
 
 def withEnvFiles (w : World) (o : PO) (fs : List Str) : Except Err PO :=
@@ -149,30 +185,15 @@ def withEnvFiles (w : World) (o : PO) (fs : List Str) : Except Err PO :=
     | none => .ok (defaultEnvFile w o)
 
 def lookupFile (w : World) : FileRef → Option EnvFile
-  | .default => w.dotEnv
-  | .defaultAlt => w.altDotEnv
+  | .default d => (dirNode w d).dotEnv
   | .named n => List.lookup n w.envFiles
 
-/-- lookup chain: first `a`, then `b` -/
-def chain (a b : Env) (k : Str) : Option Str :=
-  match a.get k with
-  | some v => some v
-  | none => b.get k
-
-/-- the lookup of `dotenv.expandVariables`: `lookupFn` first, then the map being filled -/
-def lookThen (look : Str → Option Str) (out : Env) (n : Str) : Option Str :=
-  match look n with
-  | some v => some v
-  | none => out.get n
-
-/-- one env file: `look` is the `lookupFn` handed to the parser, `out` the map being filled -/
-def parseLines (look : Str → Option Str) : List (Str × Str) → Env → Except Err Env
-  | [], out => .ok out
-  | (k, t) :: ls, out =>
-    match Template.subst (lookThen look out) t with
-    | .ok v => parseLines look ls ((k, v) :: out)
-    | .err _ => .error .dotenvParse
-    | .panic _ => .error .panic
+/-- `ParseWithLookup` on the text of one env file (`look` is the `lookupFn`) -/
+def parseFile (look : Str → Option Str) (content : Str) : Except Err Env :=
+  match Dotenv.parse (Dotenv.stripBOM content) look with
+  | .ok m => .ok m
+  | .err _ _ => .error .dotenvParse
+  | .panic _ => .error .panic
 
 /-- `dotenv.GetEnvFromFile(cur, files)`; `envMap` accumulates -/
 def getEnvFromFile (w : World) (cur : Env) : List FileRef → Env → Except Err Env
@@ -181,10 +202,76 @@ def getEnvFromFile (w : World) (cur : Env) : List FileRef → Env → Except Err
     match lookupFile w f with
     | none => .error .envNotFound
     | some .dir => .error .envIsDir
-    | some (.file ls) =>
-      match parseLines (chain cur envMap) ls [] with
-      | .ok out => getEnvFromFile w cur fs (out ++ envMap)
+    | some (.file c) =>
+      match parseFile (Dotenv.envOf cur.get envMap) c with
+      | .ok out => getEnvFromFile w cur fs (Dotenv.mergeInto envMap out)
       | .error e => .error e
+
+/-! ## which compose files are loaded -/
+
+/-- `strings.Split(s, sep)` for a non-empty separator (`fuel` bounds the number of cuts) -/
+def splitOnFuel (sep : Str) : Nat → Str → List Str
+  | 0, s => [s]
+  | n + 1, s =>
+    match indexOf sep s with
+    | none => [s]
+    | some i => s.take i :: splitOnFuel sep n (s.drop (i + sep.length))
+
+def splitOn (sep s : Str) : List Str := splitOnFuel sep s.length s
+
+/-- `absolutePaths`: every path must exist -/
+def resolvePaths (w : World) : List Str → Except Err (List CfgRef)
+  | [] => .ok []
+  | p :: ps =>
+    match List.lookup p w.paths with
+    | none => .error .configNotFound
+    | some r =>
+      match resolvePaths w ps with
+      | .ok rs => .ok (r :: rs)
+      | .error e => .error e
+
+/-- `cli.WithConfigFileEnv` -/
+def withConfigFileEnv (w : World) (o : PO) : Except Err PO :=
+  match o.configs with
+  | _ :: _ => .ok o
+  | [] =>
+    let sep := match o.env.get pathSepKey with
+      | some s => if s = [] then [':'] else s
+      | none => [':']
+    match o.env.get composeFileKey with
+    | none => .ok o
+    | some f =>
+      match resolvePaths w (splitOn sep f) with
+      | .ok rs => .ok { o with configs := rs }
+      | .error e => .error e
+
+def defaultFileNames : List Str := strs ["compose.yaml", "compose.yml", "docker-compose.yml", "docker-compose.yaml"]
+def defaultOverrideFileNames : List Str :=
+  strs ["compose.override.yml", "compose.override.yaml", "docker-compose.override.yml", "docker-compose.override.yaml"]
+
+def present (n : DirNode) (f : Str) : Bool := (List.lookup f n.files).isSome
+
+/-- the loop of `WithDefaultConfigPath`: first directory, going up, that holds a default file name -/
+def searchUp (w : World) : Nat → Nat → List CfgRef
+  | 0, _ => []
+  | fuel + 1, d =>
+    let n := dirNode w d
+    match defaultFileNames.filter (present n) with
+    | winner :: _ =>
+      { dir := d, file := some winner } ::
+        (match defaultOverrideFileNames.filter (present n) with
+         | ov :: _ => [{ dir := d, file := some ov }]
+         | [] => [])
+    | [] =>
+      match n.parent with
+      | some p => searchUp w fuel p
+      | none => []
+
+/-- `cli.WithDefaultConfigPath` -/
+def withDefaultConfigPath (w : World) (o : PO) : PO :=
+  match o.configs with
+  | _ :: _ => o
+  | [] => { o with configs := searchUp w (w.dirs.length + 1) (projDirId w o) }
 
 def applyOpt (w : World) (o : PO) : Opt → Except Err PO
   | .withName n => if normalize n = n then .ok { o with name := n } else .error .invalidName
@@ -195,7 +282,9 @@ def applyOpt (w : World) (o : PO) : Opt → Except Err PO
     match getEnvFromFile w o.env o.envFiles [] with
     | .ok m => .ok { o with env := o.env ++ m }
     | .error e => .error e
-  | .withWorkDir b => .ok (if b then { o with alt := true } else o)
+  | .withWorkDir d => .ok (match d with | some i => { o with workDir := some i } | none => o)
+  | .withConfigFileEnv => withConfigFileEnv w o
+  | .withDefaultConfigPath => .ok (withDefaultConfigPath w o)
 
 /-- `cli.NewProjectOptions`: the option functions run in call order, the first error aborts -/
 def runOpts (w : World) : List Opt → PO → Except Err PO
@@ -214,6 +303,20 @@ def cliName (w : World) (o : PO) : Str × Bool :=
     | some n => if n ≠ [] then (n, true) else (normalize (projDir w o), false)
     | none => (normalize (projDir w o), false)
 
+/-- `ReadConfigFiles`: the documents of every config path, in order -/
+def readConfigs (w : World) : List CfgRef → Except Err (List (List (Option Str)))
+  | [] => .ok []
+  | c :: cs =>
+    match c.file with
+    | none => .error .configIsDir
+    | some f =>
+      match List.lookup f (dirNode w c.dir).files with
+      | none => .error .configNotFound
+      | some docs =>
+        match readConfigs w cs with
+        | .ok r => .ok (docs :: r)
+        | .error e => .error e
+
 /-- the scan of `loader.projectName` over one file: last non-empty `name` -/
 def lastNameDocs : List (Option Str) → Str → Str
   | [], acc => acc
@@ -224,12 +327,12 @@ def lastName : List (List (Option Str)) → Str → Str
   | [], acc => acc
   | f :: fs, acc => lastName fs (lastNameDocs f acc)
 
-/-- `loader.projectName` -/
-def loaderName (w : World) (env : Env) (pn : Str × Bool) : Except Err Str :=
+/-- `loader.projectName` on the loaded config files -/
+def loaderName (files : List (List (Option Str))) (env : Env) (pn : Str × Bool) : Except Err Str :=
   if pn.2 then
     if normalize pn.1 ≠ pn.1 then .error .invalidName else .ok pn.1
   else
-    match Template.subst env.get (lastName w.files []) with
+    match Template.subst env.get (lastName files []) with
     | .ok s => if normalize s ≠ [] then .ok (normalize s) else .ok pn.1
     | .err _ => .error .interp
     | .panic _ => .error .panic
@@ -249,15 +352,15 @@ structure Loaded where
   probe : Str
 deriving Repr, DecidableEq
 
-def allNames (w : World) : List Str := w.files.flatten.filterMap id
+def allNames (files : List (List (Option Str))) : List Str := files.flatten.filterMap id
 
-/-- `ProjectOptions.LoadProject` observed at `Project.Name`, `Project.Environment` and one interpolated string -/
-def load (w : World) (o : PO) : Except Err Loaded :=
-  match loaderName w o.env (cliName w o) with
+/-- the load proper, once the config files are read -/
+def loadFiles (w : World) (o : PO) (files : List (List (Option Str))) : Except Err Loaded :=
+  match loaderName files o.env (cliName w o) with
   | .error e => .error e
   | .ok name =>
     let env : Env := (cpn, name) :: o.env
-    match interpAll env (allNames w) with
+    match interpAll env (allNames files) with
     | .error e => .error e
     | .ok _ =>
       match Template.subst env.get w.probe with
@@ -265,9 +368,18 @@ def load (w : World) (o : PO) : Except Err Loaded :=
       | .panic _ => .error .panic
       | .ok p => if name = [] then .error .emptyName else .ok { name := name, env := env, probe := p }
 
-/-- `NewProjectOptions(opts…)` then `LoadProject` -/
+/-- `ProjectOptions.LoadProject` observed at `Project.Name`, `Project.Environment` and one interpolated string -/
+def load (w : World) (o : PO) : Except Err Loaded :=
+  match o.configs with
+  | [] => .error .noConfig
+  | _ :: _ =>
+    match readConfigs w o.configs with
+    | .error e => .error e
+    | .ok files => loadFiles w o files
+
+/-- `NewProjectOptions(given, opts…)` then `LoadProject` -/
 def run (w : World) (opts : List Opt) : Except Err Loaded :=
-  match runOpts w opts {} with
+  match runOpts w opts { configs := w.given } with
   | .ok o => load w o
   | .error e => .error e
 
